@@ -9,6 +9,8 @@ Line-protocol driver for C20 (transaction pool model).  All tokens are decimal n
   evict ORD K
   promote ORD
 A line prefixed with "T " is evaluated without committing the new state.
+  SAVE      remember the current state        -> ok
+  RESTORE   go back to the remembered state   -> ok
 Reply: `<results> <dump>` where results = "-" or a comma list over the submitted transactions and dump is the
 canonical text of every view (see `dump`).
 -/
@@ -148,4 +150,13 @@ def stepLine (s : State) (line : String) : State × String :=
       (s', (if rs.isEmpty then "-" else joinWith "," (rs.map resStr)) ++ " " ++ dump s')
     | none => (s, "bad-op")
 
-def main : IO Unit := runLoop emptyState stepLine
+/-- current state and the state remembered by SAVE -/
+def stepLine2 (st : State × State) (line : String) : (State × State) × String :=
+  match fields line with
+  | ["SAVE"] => ((st.1, st.1), "ok")
+  | ["RESTORE"] => ((st.2, st.2), "ok")
+  | _ =>
+    let (s', out) := stepLine st.1 line
+    ((s', st.2), out)
+
+def main : IO Unit := runLoop (emptyState, emptyState) stepLine2
